@@ -149,17 +149,22 @@ async fn check_state(rep: &mut Report, args: &Args, b: &Base, seg: &Path, damage
     rep.count(&format!("states.{kind_tag}.{label}"), 1);
     match b.cfg.open(&work) {
         Err(e) => {
-            // symptom classes: cannot-serve (open fails, a read fails, or acknowledged events are not found),
+            // symptom classes: cannot-serve (open fails or a read fails: loud), silently-missing (reads succeed but
+            // acknowledged events are not returned),
             // open-panic, wrong-data (something else than the acknowledged events is returned)
             let sym = if e.contains("panicked") { "open-panic" } else { "cannot-serve" };
+            rep.count(&format!("symptoms.{kind_tag}.{label}.open-error"), 1);
             rep.violation(&format!("C06:{kind_tag}:{label}:{sym}"), format!("sealed segment {} with {desc:?}: {e}", seg_rel.display()), witness);
         }
         Ok(db) => {
             let mut out = Vec::new();
             audit_all(&db, &b.model, &mut out).await;
             if let Some(f) = out.first() {
+                rep.count(&format!("symptoms.{kind_tag}.{label}.read-{}", f.class), 1);
                 let sym = match f.class.as_str() {
-                    "error" | "missing" | "not-found" => "cannot-serve",
+                    "error" => "cannot-serve",
+                    // no error anywhere, the acknowledged events are simply not there: silent loss
+                    "missing" | "not-found" => "silently-missing",
                     _ => "wrong-data",
                 };
                 rep.violation(&format!("C06:{kind_tag}:{label}:{sym}"), format!("sealed segment {} with {desc:?}: reopened, but {}: {}", seg_rel.display(), f.api, f.what), witness);
